@@ -117,6 +117,9 @@ def run_unit(unit, acc):
             for rev in (False, True):
                 for zr in ((-1.0, 2.0), (0.5, 3.5)):
                     check_case(dict(layer="prism", poly=pi, reversed=rev, z=list(zr)), acc)
+                    # the upper plane lists the same polygon starting at another corner
+                    for sh in (1, 2):
+                        check_case(dict(layer="prism", poly=pi, reversed=rev, z=list(zr), shift=sh), acc)
     else:
         for style in ("t4", "nusc"):
             for s0, s100, minp in [(1.0, 1.0, 1), (1.0, 1.5, 3)]:
@@ -344,7 +347,8 @@ def check_case(case, acc):
         if case["reversed"]:
             poly = list(reversed(poly))
         z0, z1 = case["z"]
-        area = [(x, y, z0) for x, y in poly] + [(x, y, z1) for x, y in poly]
+        sh = case.get("shift", 0) % len(poly)
+        area = [(x, y, z0) for x, y in poly] + [(x, y, z1) for x, y in (poly[sh:] + poly[:sh])]
         acc.exec(2)
         inside = crop_pointcloud(PC, area, inside=True)
         outside = crop_pointcloud(PC, area, inside=False)
@@ -380,7 +384,7 @@ def check_case(case, acc):
             if gotv != wantv:
                 bad("prism:vertex-row", "points on the horizontal lines through the polygon's vertices: %d reported inside, %d are inside (first difference %s)" % (
                     len(gotv), len(wantv), sorted(set(gotv) ^ set(wantv))[:2]))
-        acc.state(("prism", case["poly"], case["reversed"], tuple(case["z"]), len(inside)), nontrivial=0 < len(inside) < len(PC))
+        acc.state(("prism", case["poly"], case["reversed"], tuple(case["z"]), case.get("shift", 0), len(inside)), nontrivial=0 < len(inside) < len(PC))
         acc.outcome(("prism", len(inside)))
     elif lay == "mixed":
         boxes = list(MIXED[case["scene"]])
